@@ -406,6 +406,39 @@ def native_two_fits(run):
     return problems
 
 
+def native_best_candidate(run):
+    """D-skl boundary with a test double for the SCORER: the workflow's scorer is replaced by one that ranks the candidates by a fixed
+    table (the grid lists them as [second best, worst, best], so rank order and list order form a 3-cycle).  The exported filter must
+    carry the candidate the search selected - the best-scoring one - not merely some grid value."""
+    import numpy as np
+
+    from replay import shim
+    from replay.native import repo_import
+
+    py = shim.install()
+    ui = repo_import("formak.ui")
+    usm = repo_import("formak.ui_state_machine")
+    dt, x, v, a = ui.Symbol("dt"), ui.Symbol("x"), ui.Symbol("v"), ui.Symbol("a")
+    model = ui.Model(dt=dt, state={x, v}, control={a}, state_model={x: x + dt * v, v: v + dt * a})
+    rng = np.random.default_rng(run.seed + 5)
+    data = np.column_stack([np.zeros(8), rng.normal(0, 0.5, 8)])
+    table = {4.5: 1.0, 1.5: 0.0, 3.0: 2.0}  # greater is better: 3.0 wins, 4.5 is second, 1.5 is worst
+    grid = {"process_noise": [{a: 1.0}], "sensor_models": [{"pos": {"x": x}}], "sensor_noises": [{"pos": {"x": 1.0}}], "innovation_filtering": [4.5, 1.5, 3.0]}
+    old = usm.NisScore.__call__
+    usm.NisScore.__call__ = lambda self, estimator, X, y=None: float(table[estimator.get_params()["config"].innovation_filtering])
+    problems = []
+    try:
+        fit = ui.DesignManager(name="ranked").symbolic_model(model=model).fit_model(parameter_space=grid, data=data)
+        got = fit.export_python().config.innovation_filtering
+        if got != 3.0:
+            problems.append(f"candidates [4.5, 1.5, 3.0] scored [1.0, 0.0, 2.0] (greater is better): the exported filter carries innovation_filtering={got}, the selected candidate is 3.0")
+    except Exception as e:
+        problems.append(f"{type(e).__name__}: {(str(e).splitlines() or [''])[0][:200]}")
+    finally:
+        usm.NisScore.__call__ = old
+    return problems
+
+
 def native_small_data(run):
     """Data sets with fewer than 3 SAMPLES (rows) - however many columns - are refused with ModelFitError before any estimator exists."""
     import numpy as np
@@ -522,6 +555,11 @@ def check(run):
     for p in tf[:1]:
         run.findings.append(Finding("C18.py.native_two_fits", "two-fits", p, {"language": "python", "inputs": {"seed": run.seed, "two_fits": True}, "oracle_verdict": p}, True))
     run.native_runs += 1
+    bc = native_best_candidate(run)
+    run.bounded.append({"what": "native: a three-candidate grid listed as [second best, worst, best] with a scorer test double that ranks them by a fixed table: the exported filter carries the best-scoring candidate", "bound": "1 fit x 3 candidates x 8 rows", "failures": len(bc), "counted_as_proved": False})
+    for p in bc[:1]:
+        run.findings.append(Finding("C18.py.native_best_candidate", "ranked", p, {"language": "python", "inputs": {"seed": run.seed, "best_candidate": True}, "oracle_verdict": p}, True))
+    run.native_runs += 1
     gp = native_grid_points(run)
     for p in gp[:1]:
         run.findings.append(Finding("C18.py.native_grid_points", "grid", p, {"language": "python", "inputs": {"seed": run.seed, "grid_points": True}, "oracle_verdict": p}, True))
@@ -544,6 +582,10 @@ def replay_file(payload):
         print("replay C18 (real searches in one fresh process, later states first):", rows or err)
         want = {("DesignManager", "Symbolic_Model"): ["symbolic_model"], ("DesignManager", "Fit_Model"): ["symbolic_model", "fit_model"], ("SymbolicModelState", "Fit_Model"): ["fit_model"]}
         return bool(rows) and all(r[2] == want[(r[0], r[1])] for r in rows if (r[0], r[1]) in want)
+    if (payload.get("inputs") or {}).get("best_candidate"):
+        p = native_best_candidate(driver.PropertyRun("C18", "quick", (payload.get("inputs") or {}).get("seed", 0)))
+        print("replay C18 (best-scoring candidate exported):", p[:1] or "the selected candidate is exported")
+        return not p
     if (payload.get("inputs") or {}).get("two_fits"):
         run0 = driver.PropertyRun("C18", "quick", (payload.get("inputs") or {}).get("seed", 0))
         p = native_two_fits(run0)
